@@ -118,6 +118,7 @@ const (
 	StRetSig   = 8  // OP_RETURN followed by addr x OP_CHECKSIG (the legacy sigop count does not stop at OP_RETURN)
 	StP2SHSig  = 9  // P2SH whose redeem script holds addr x OP_CHECKSIG in a branch that is never executed
 	StP2WSHSig = 10 // P2WSH with the same script as its witness script
+	StP2SHWSig = 11 // the same witness program wrapped in P2SH
 )
 
 // ------------------------------------------------------------------ the world: real objects for every abstract id
@@ -192,6 +193,8 @@ func PkScript(addr, st int) []byte {
 		return append(append([]byte{btc.OP_HASH160, 20}, hash160(sigScript(addr))...), btc.OP_EQUAL)
 	case StP2WSHSig:
 		return append([]byte{0, 32}, sha2(sigScript(addr))...)
+	case StP2SHWSig:
+		return append(append([]byte{btc.OP_HASH160, 20}, hash160(append([]byte{0, 32}, sha2(sigScript(addr))...))...), btc.OP_EQUAL)
 	case StSigops:
 		return bytes.Repeat([]byte{btc.OP_CHECKSIG}, addr)
 	case StRetSig:
@@ -287,6 +290,13 @@ func (w *World) buildTx(t int) *btc.Tx {
 			tx.TxIn[i].ScriptSig = pushData(innerScript(addr))
 		case StP2WSH, StP2WSHSig:
 			anyWit = true
+		case StP2SHWSig:
+			anyWit = true
+			if in.Ok {
+				tx.TxIn[i].ScriptSig = pushData(append([]byte{0, 32}, sha2(sigScript(o.Addr))...))
+			} else {
+				tx.TxIn[i].ScriptSig = pushData(append([]byte{0, 32}, sha2(innerScript(addr))...))
+			}
 		case StP2SHSig:
 			if in.Ok {
 				tx.TxIn[i].ScriptSig = pushData(sigScript(o.Addr))
@@ -324,7 +334,7 @@ func (w *World) buildTx(t int) *btc.Tx {
 		switch o.St {
 		case StP2WSH:
 			tx.SegWit[i] = [][]byte{innerScript(addr)}
-		case StP2WSHSig:
+		case StP2WSHSig, StP2SHWSig:
 			if in.Ok {
 				tx.SegWit[i] = [][]byte{sigScript(o.Addr)}
 			} else {
